@@ -350,6 +350,7 @@ type safety struct {
 	globalsNonNil  map[*ssa.Global]bool // pointer globals assigned once, in a package initialiser, with a fresh allocation
 	tablesFresh    map[string]string    // table name -> "" if every registered factory returns a fresh non-nil allocation, else reason
 	minSizeMemo    map[string]int64
+	atomicMemo     map[string]string // struct.field -> "" (never nil) or the reason it may be
 }
 
 // freshNonNil: v is a heap allocation, a made map, or the result of a module function (a constructor) every return of
@@ -453,6 +454,16 @@ func (s *safety) nonNilByFacts(x *Val) (bool, string) {
 					return true, "factory from table " + name + ": every registered closure returns a fresh &T{}"
 				}
 				return false, r
+			}
+		}
+	case "atomicload":
+		if a := stripCT(x.Args[0]); a.Op == "field" && len(a.Args) == 1 && a.Args[0].Type != nil {
+			if pt, ok := a.Args[0].Type.Underlying().(*types.Pointer); ok {
+				if named, ok := pt.Elem().(*types.Named); ok {
+					if ok, why := s.atomicPtrNeverNil(named, a.ID); ok {
+						return true, why
+					}
+				}
 			}
 		}
 	case "tassert":
@@ -1391,4 +1402,158 @@ func guardCandidates(v *Val) []*Val {
 		}
 	}
 	return out
+}
+
+// atomicPtrNeverNil: field `field` of the module's struct type `named` is a sync/atomic.Pointer that never holds nil:
+// every Store/Swap/CompareAndSwap on it in the module publishes the address of a fresh variable, every value of the
+// struct type is made by a function that stores into the field before it returns (so before anyone else can load),
+// and no value of the type exists that was not made that way (no package-level or embedded value of the struct type).
+func (s *safety) atomicPtrNeverNil(named *types.Named, field int) (bool, string) {
+	key := fmt.Sprintf("%s.%d", named.String(), field)
+	if s.atomicMemo == nil {
+		s.atomicMemo = map[string]string{}
+	}
+	if r, ok := s.atomicMemo[key]; ok {
+		return r == "", "atomic pointer " + key + ": set by the constructor of every instance, only ever replaced by addresses of fresh variables"
+	}
+	a := s.a
+	reason := ""
+	fail := func(r string) {
+		if reason == "" {
+			reason = r
+		}
+	}
+	isField := func(v ssa.Value) (*ssa.FieldAddr, bool) {
+		fa, ok := v.(*ssa.FieldAddr)
+		if !ok || fa.Field != field {
+			return nil, false
+		}
+		pt, ok := fa.X.Type().Underlying().(*types.Pointer)
+		if !ok {
+			return nil, false
+		}
+		n, ok := pt.Elem().(*types.Named)
+		return fa, ok && n == named
+	}
+	for fn := range a.P.AllFuncs {
+		if !a.P.InModule(fn) || fn.Blocks == nil || a.P.IsTestFile(fn.Pos()) {
+			continue
+		}
+		var allocs []*ssa.Alloc
+		type storeAt struct {
+			fa *ssa.FieldAddr
+			b  *ssa.BasicBlock
+		}
+		var stores []storeAt
+		for _, b := range fn.Blocks {
+			for _, in := range b.Instrs {
+				switch in := in.(type) {
+				case *ssa.Alloc:
+					if pt, ok := in.Type().Underlying().(*types.Pointer); ok {
+						if n, ok := pt.Elem().(*types.Named); ok && n == named {
+							allocs = append(allocs, in)
+						}
+					}
+				case ssa.CallInstruction:
+					c := in.Common()
+					callee := c.StaticCallee()
+					if callee == nil || len(c.Args) == 0 || !strings.HasPrefix(fullName(callee), "(*sync/atomic.Pointer[") {
+						continue
+					}
+					fa, ok := isField(c.Args[0])
+					if !ok {
+						continue
+					}
+					m := fullName(callee)
+					m = m[strings.LastIndex(m, ".")+1:]
+					var stored ssa.Value
+					switch m {
+					case "Store", "Swap":
+						stored = c.Args[1]
+					case "CompareAndSwap":
+						stored = c.Args[2]
+					case "Load":
+						continue
+					default:
+						fail("method " + m + " of the atomic pointer is outside the model")
+						continue
+					}
+					if !freshNonNil(stored, 0) {
+						fail("a value that is not the address of a fresh variable is published at " + a.P.Pos(in.Pos()))
+					}
+					if m == "Store" {
+						stores = append(stores, storeAt{fa, in.Block()})
+					}
+				}
+			}
+		}
+		for _, al := range allocs {
+			// the function that makes the value stores into the field on every way to a return
+			ok := false
+			for _, st := range stores {
+				if st.fa.X != ssa.Value(al) {
+					continue
+				}
+				dominatesAll := true
+				for _, b := range fn.Blocks {
+					if len(b.Instrs) == 0 {
+						continue
+					}
+					if _, isRet := b.Instrs[len(b.Instrs)-1].(*ssa.Return); isRet && !st.b.Dominates(b) {
+						dominatesAll = false
+					}
+				}
+				if dominatesAll {
+					ok = true
+				}
+			}
+			if !ok {
+				fail("a " + named.Obj().Name() + " is made at " + a.P.Pos(al.Pos()) + " without its atomic pointer being set before the function returns")
+			}
+		}
+	}
+	// no value of the struct type outside the constructors: package-level values and fields of other types
+	var holds func(t types.Type, depth int) bool
+	holds = func(t types.Type, depth int) bool {
+		if depth > 4 {
+			return false
+		}
+		if n, ok := t.(*types.Named); ok && n == named {
+			return true
+		}
+		switch u := t.Underlying().(type) {
+		case *types.Struct:
+			for i := 0; i < u.NumFields(); i++ {
+				if holds(u.Field(i).Type(), depth+1) {
+					return true
+				}
+			}
+		case *types.Array:
+			return holds(u.Elem(), depth+1)
+		}
+		return false
+	}
+	for _, pk := range a.P.Pkgs {
+		scope := pk.Types.Scope()
+		for _, n := range scope.Names() {
+			switch o := scope.Lookup(n).(type) {
+			case *types.Var:
+				if holds(o.Type(), 0) {
+					fail("package-level value " + o.Name() + " of the struct type starts with a nil atomic pointer")
+				}
+			case *types.TypeName:
+				if nt, ok := o.Type().(*types.Named); ok && nt != named {
+					if st, ok := nt.Underlying().(*types.Struct); ok {
+						for i := 0; i < st.NumFields(); i++ {
+							if holds(st.Field(i).Type(), 0) {
+								fail("type " + o.Name() + " embeds the struct by value")
+							}
+						}
+					}
+				}
+			}
+		}
+	}
+	s.atomicMemo[key] = reason
+	return reason == "", "atomic pointer " + key + ": set by the constructor of every instance, only ever replaced by addresses of fresh variables"
 }
